@@ -125,7 +125,6 @@ func runUpdater(c *core.Ctx) []core.Obligation {
 	return obs
 }
 
-
 // bothDirections (after round-7 seed C12-r7m1, the `vb[i]` against `va` edges line removed from both cell-to-cell
 // distance functions): the extreme distance between two cells is attained between a vertex of ONE cell and an edge of
 // the OTHER, in either direction - 32 (vertex, edge) pairs as the comment in the source says. Each of the two functions
